@@ -213,7 +213,7 @@ def _unique_name(params: Any) -> str:
     """Create a unique name for parameter-class instance `params`"""
     if isinstance(params, dict):
         # `dict`-valued parameters, as of `ExternalModule`s with `paramtype=dict`: hash their (sorted) JSON
-        jsonstr = json.dumps(params, sort_keys=True, default=hdl21_naming_encoder)
+        jsonstr = json.dumps(_positive_zero(params), sort_keys=True, default=hdl21_naming_encoder)
         h = hashlib.new("md5", usedforsecurity=False)
         h.update(bytes(jsonstr, encoding="utf-8"))
         return h.hexdigest()
@@ -273,9 +273,14 @@ def _unique_name(params: Any) -> str:
 
 
 def _positive_zero(val: Any) -> Any:
-    """Naming helper: `-0.0` and `0.0` are equal parameter values - one generator call - and get one name."""
+    """Naming helper: `-0.0` and `0.0` are equal parameter values - one generator call - and get one name.
+    So are sequences and dictionaries of them, which the JSON encoder writes without consulting us."""
     if isinstance(val, float) and val == 0:
         return 0.0
+    if type(val) in (tuple, list):
+        return type(val)(_positive_zero(v) for v in val)
+    if type(val) is dict:
+        return {k: _positive_zero(v) for k, v in val.items()}
     return val
 
 
@@ -316,7 +321,7 @@ def hdl21_naming_encoder(obj: Any) -> Any:
 
     if isinstance(obj, (set, frozenset)):
         # Sets iterate in hash order, which differs from process to process. Encode their elements in a reproducible order.
-        return sorted(json.dumps(v, default=hdl21_naming_encoder) for v in obj)
+        return sorted(json.dumps(_positive_zero(v), default=hdl21_naming_encoder) for v in obj)
 
     if isinstance(obj, (Instance,)):
         # Not supported as parameters
